@@ -285,6 +285,8 @@ def cfg_consts(**kw):
             lines.append(" %s = %d" % (k, v))
         elif isinstance(v, str) and v.startswith("<-"):
             lines.append(" %s <- %s" % (k, v[2:].strip()))
+        elif isinstance(v, str) and v.startswith("raw:"):
+            lines.append(" %s = %s" % (k, v[4:]))
         else:
             lines.append(' %s = "%s"' % (k, v))
     return "CONSTANTS\n" + "\n".join(lines) + "\n"
